@@ -466,6 +466,11 @@ class TransformationGraph(Graph):
 
         wfnode2expr(wf.target()).fix()
 
+        # A resource that no expression mentions is not part of the target's
+        # expression, but it is converted below all the same
+        for expr in exprs.values():
+            expr.fix()
+
         # 2. Convert individual transformation expressions to nodes and add
         # them. We must do this in the proper order, so that expression nodes
         # for the same tool/source nodes get saved in self.expr_nodes and
